@@ -552,6 +552,11 @@ impl<'a> Http2Parser<'a> {
         let mut scheme = None;
         let mut status = None;
 
+        // HPACK state belongs to one connection and every parse starts at the beginning
+        // of a connection's byte stream, so it must not survive from an earlier parse
+        // (of this or of any other connection).
+        *self.hpack_decoder.borrow_mut() = Decoder::new();
+
         let stream_frames: Vec<&Http2Frame> =
             frames.iter().filter(|f| f.stream_id == stream_id).collect();
 
